@@ -46,11 +46,15 @@ def cases(draw):
     if not any(o["op"] == "save" for o in ops):
         ops.insert(draw(st.integers(0, len(ops))), {"op": "save", "plots": False})
     cfg["ops"] = ops
+    # a public tuning attribute the user may have changed before saving (the Hamiltonian and ensemble samplers have it)
+    cfg["set_max_attempts"] = draw(st.sampled_from([None, None, 7, 50]))
     return cfg
 
 
 def readouts(ch, cfg):
     out = {}
+    if hasattr(ch, "max_attempts"):
+        out["max_attempts"] = int(ch.max_attempts)
     with warnings.catch_warnings():
         warnings.simplefilter("ignore")
         with np.errstate(all="ignore"):
@@ -129,6 +133,9 @@ def body(case, ctx):
     cfg = case
     cls = cfg["cls"]
     ch, tgt, info = S.build(cfg, record=False)
+    if cfg.get("set_max_attempts") and hasattr(ch, "max_attempts"):
+        # (the Hamiltonian sampler raises when the limit is hit, so it gets a larger non-default value than the ensemble sampler)
+        ch.max_attempts = cfg["set_max_attempts"] + (250 if cls == "hmc" else 0)
     copy_ch = None
     tmp = tempfile.mkdtemp(prefix="c09-", dir=os.environ.get("TMPDIR", "/tmp"))
     nw = S.walkers(cfg)
